@@ -36,10 +36,15 @@ ROUTES = [
 ]
 
 
-def _case(cid, rel, arrs, extra, horizon=None):
+def _case(cid, rel, arrs, extra, horizon=None, sources=None):
     base = c05._case(cid, "inv", rel, arrs, horizon)
     base[1] = "c07"
     base[6] = extra.encode().hex()
+    while len(base) < 8:
+        base.append("")
+    # where each response comes from (d = the INVITE's destination, p = other port, h = other host): the ACK
+    # must go where the INVITE went whatever the answer's source is
+    base.append(",".join(sources) if sources else ",".join("dph"[(len(cid) + i + len(arrs)) % 3] for i in range(len(arrs))))
     return base
 
 
@@ -126,6 +131,8 @@ def normalize_model(case, s):
 
 def oracle(case, impl):
     """property text applied to the raw ACK bytes' header lines, independent of the model"""
+    if "A!dest" in impl.split("\t")[0]:
+        return ["an ACK was sent to another address than the one the INVITE was sent to (responses from %s)" % (case[8] if len(case) > 8 else "d")]
     v = c05.oracle(case[:6], impl)
     if v:
         return v
